@@ -35,6 +35,12 @@ type c13Case struct {
 	// Sep puts a separator word between the pieces of the unknown string, so that the white space belonging to a
 	// padded value is not shared with its neighbour (copies of different values that overlap are out of domain).
 	Sep bool `json:"sep,omitempty"`
+	// Twin: value Twin[0] gets a near-duplicate appended to the value list: the same text with one letter of one word
+	// changed at position Twin[1] (neither contains the other; for long values their mutual confidence is above 0.99).
+	Twin []int `json:"twin,omitempty"`
+	// MinDiff (when > 0): the classifier's MinDiffRatio is set to MinDiff-1 (so 1 stands for 0, "consider all known
+	// values", and 2 for 1.0), a legal non-default configuration.
+	MinDiff float64 `json:"mindiff,omitempty"`
 }
 
 var c13VocabPools = map[string][]string{
@@ -82,6 +88,16 @@ func c13Gen(t *rapid.T) interface{} {
 		v = append(v[:pos:pos], append([]int{-1}, v[pos:]...)...)
 		c.Values = append(c.Values, v)
 	}
+	if lib.IntN(t, 0, 3, "twin") == 0 {
+		c.Twin = []int{lib.IntN(t, 0, nv-1, "twinOf"), lib.IntN(t, 0, 400, "twinPos")}
+		// a long value: one changed letter in more than 200 bytes keeps the two texts more than 99.5 % alike
+		v := lib.Ints(t, 50, 70, 0, len(c.Vocab)-1, "twinValueTokens")
+		pos := lib.IntN(t, 0, len(v), "twinUniquePos")
+		c.Values[c.Twin[0]] = append(v[:pos:pos], append([]int{-1}, v[pos:]...)...)
+	}
+	if lib.IntN(t, 0, 3, "minDiff") == 0 {
+		c.MinDiff = 1 + lib.PickFloat(t, []float64{0, 0, 0.5, 1.0}, "minDiffRatio")
+	}
 	nn := lib.IntN(t, 0, 3, "nnorms")
 	for i := 0; i < nn; i++ {
 		c.Norms = append(c.Norms, lib.PickStr(t, c13NormNames, "norm"))
@@ -102,6 +118,9 @@ func c13Gen(t *rapid.T) interface{} {
 			c.Unknown = append(c.Unknown, c13Piece{Value: -1, Fill: lib.Ints(t, 0, 25, 0, len(c.Vocab)-1, "filler")})
 		} else {
 			pc := c13Piece{Value: lib.IntN(t, 0, nv-1, "planted")}
+			if len(c.Twin) == 2 && lib.IntN(t, 0, 2, "plantTwin") == 0 {
+				pc.Value = nv // the near-duplicate itself (it is appended to the value list as entry nv)
+			}
 			if lib.IntN(t, 0, 4, "glued") == 0 {
 				pc.Glue = lib.IntN(t, 1, 3, "glue")
 			}
@@ -168,6 +187,28 @@ func c13Check(ci interface{}) lib.Outcome {
 		if err := cl.AddValue(fmt.Sprintf("key%d", i), values[i]); err != nil {
 			return lib.Outcome{Violation: fmt.Sprintf("AddValue(key%d, %q) returned error %v", i, values[i], err)}
 		}
+	}
+	if len(c.Twin) == 2 && len(values) > 0 {
+		src := values[((c.Twin[0]%len(values))+len(values))%len(values)]
+		// change one ASCII letter that is not part of the unique token
+		b := []byte(src)
+		uq := fmt.Sprintf("uq%dx", ((c.Twin[0]%len(values))+len(values))%len(values))
+		lo := strings.Index(src, uq)
+		for k := 0; k < len(b); k++ {
+			i := (c.Twin[1] + k) % len(b)
+			if (b[i] >= 'a' && b[i] <= 'y' || b[i] >= 'A' && b[i] <= 'Y') && (lo < 0 || i < lo || i >= lo+len(uq)) {
+				b[i]++
+				tw := string(b)
+				if err := cl.AddValue(fmt.Sprintf("key%d", len(values)), tw); err != nil {
+					return lib.Outcome{Violation: fmt.Sprintf("AddValue(key%d, %q) returned error %v", len(values), tw, err)}
+				}
+				values = append(values, tw)
+				break
+			}
+		}
+	}
+	if c.MinDiff >= 1 && c.MinDiff <= 2 {
+		cl.MinDiffRatio = c.MinDiff - 1
 	}
 	var parts []string
 	glued := false
@@ -310,6 +351,12 @@ func c13Check(ci interface{}) lib.Outcome {
 	}
 	if glued {
 		classes = append(classes, "copy-glued-to-word-characters")
+	}
+	if len(values) > len(c.Values) {
+		classes = append(classes, "near-duplicate-value-in-the-set")
+	}
+	if c.MinDiff >= 1 && c.MinDiff <= 2 {
+		classes = append(classes, fmt.Sprintf("MinDiffRatio-%v", c.MinDiff-1))
 	}
 	if len(c.Pad) > 0 {
 		classes = append(classes, "values-with-leading/trailing-white-space")
